@@ -50,7 +50,7 @@ func (c *Channel) Me() jid.JID {
 func (c *Channel) Joined() bool {
 	c.client.managedM.Lock()
 	defer c.client.managedM.Unlock()
-	_, ok := c.client.managed[c.addr.Bare().String()]
+	_, ok := c.client.managed[c.addr.String()]
 	return ok
 }
 
@@ -129,6 +129,13 @@ func (c *Channel) LeavePresence(ctx context.Context, status string, p stanza.Pre
 
 	select {
 	case err := <-errChan:
+		// The unavailable presence was sent (or the session failed): the room no
+		// longer counts us among its occupants, whatever it answered.
+		c.client.managedM.Lock()
+		if c.client.managed[c.addr.String()] == c {
+			delete(c.client.managed, c.addr.String())
+		}
+		c.client.managedM.Unlock()
 		return err
 	case <-c.depart:
 	case <-ctx.Done():
